@@ -68,6 +68,9 @@ func (c *FnCtx) prologue() {
 		for _, gv := range c.spec.GhostVars {
 			// a ghost variable starts with its declared value
 			comp, _, _ := c.localGhost(gv.Name)
+			if gv.Init == nil {
+				continue
+			}
 			v, _ := c.tr(gv.Init.E, env)
 			c.assume(eq(c.get(c.st, comp), v))
 		}
@@ -768,9 +771,11 @@ func (c *FnCtx) loopModified(li *LoopInfo) {
 				}
 			case *ssa.Send:
 				c.chanMods(x.Chan, other)
+				c.pointSetMods("send:"+chanVarName(x.Chan), other)
 			case *ssa.UnOp:
 				if x.Op == token.ARROW {
 					c.chanMods(x.X, other)
+					c.pointSetMods("recv:"+chanVarName(x.X), other)
 				}
 			case *ssa.Select:
 				for _, st := range x.States {
@@ -932,5 +937,17 @@ func (c *FnCtx) loopFrame(li *LoopInfo) {
 			continue
 		}
 		c.assume(fmt.Sprintf("(forall ((q$r Int)) (! (=> %s (= (select %s q$r) (select %s q$r))) :pattern ((select %s q$r))))", and(excl...), cur, pre, cur))
+	}
+}
+
+// pointSetMods: ghost variables assigned by "after <key> set ..." clauses.
+func (c *FnCtx) pointSetMods(key string, out map[string]bool) {
+	if c.spec == nil {
+		return
+	}
+	for _, g := range c.spec.Sets[key] {
+		if comp, _, ok := c.localGhost(g.Name); ok {
+			out[comp] = true
+		}
 	}
 }
